@@ -170,6 +170,18 @@ CLAIMED = {
              "and the variable-time field arithmetic of the easy backend are outside the statement. One known finding "
              "(eb_mul_lodah at k = n-1).",
         tech="metamorphic property testing on compiler-instrumented control-flow traces (trace-pc), generated scalar batches"),
+    "C07": dict(
+        text="Generated-input search in both directions over every codec (bn bin / raw / text in all radices 2..64, fp, "
+             "fb, Fp2..Fp12 plain and packed, ep / ep2 / eb / ed points compressed and uncompressed, GT): encode into "
+             "buffers of size-1 / size / size+1 / size+7 and compare with REFERENCE encodings written from the formats, "
+             "read(write(x)) == x; decode structured mutations of valid encodings (every tag byte, lengths +-k, "
+             "coordinates p, p+1, value+p, wrong / negated y, x without a point) and raw strings of every length: the "
+             "library must reject whenever the reference decoder rejects, and whatever it accepts must be a valid object "
+             "(read back raw, checked by the reference) whose re-encoding reproduces the input. A libFuzzer target with "
+             "in-target oracle runs in the thorough tier.",
+        note="Decoders are called in the protected style. Known findings: the compression bit of ep / ed / fp2 packed forms "
+             "is taken from the internal (Montgomery) representation, and fp12_pck_max(+-1) fails.",
+        tech=PBT + "reference codecs written from the formats (two-directional: canonical encoding + reject-whenever-reference-rejects); coverage-guided fuzzing (libFuzzer) of the decoders"),
 }
 REASONS_TODO = "check not built yet (work in progress; see DESIGN.md §5 implementation order)"
 
